@@ -507,6 +507,46 @@ def rule_o10(repo):
                     'the database, no step ever looks at it, and the system is answered SAT' % (c.lineno, v), '%s:%d' % (m.rel, c.lineno))
     return res
 
+def rule_o11(repo):
+    """The solver files a one-term constraint a * x >= b by cases on the coefficient: 1 (a bound on x itself), other non-zero values
+    (a slack variable).  A chain of cases on one number that has no last `else` lets the remaining value fall through without
+    a word - here the coefficient 0, whose constraint 0 >= b is decided by its constant: {0 * x >= 5, x >= 0} was answered
+    satisfiable.  Every case distinction on a coefficient in `Simplex.add_ineq` ends in a branch for what is left."""
+    res = RuleResult('C16.O11', 'the case distinction on the coefficient of a one-term constraint has a case for every value', floor=2)
+    f = repo.func('prover/simplex.py', 'Simplex.add_ineq')
+    chains = []
+    handled = set()
+    for n in ast.walk(f.node):
+        if not isinstance(n, ast.If) or id(n) in handled:
+            continue
+        cp = compare_parts(n.test)
+        if not (cp and isinstance(cp[1], ast.Name) and 'coeff' in cp[1].id and isinstance(cp[2], ast.Constant)):
+            continue
+        # follow the elif chain
+        tests, cur = [], n
+        while True:
+            handled.add(id(cur))
+            tests.append(cur.test)
+            if len(cur.orelse) == 1 and isinstance(cur.orelse[0], ast.If):
+                cur = cur.orelse[0]
+                continue
+            break
+        chains.append((n, tests, bool(cur.orelse)))
+    need(chains, 'Simplex.add_ineq: no case distinction on the coefficient found')
+    for i, (n, tests, has_else) in enumerate(chains):
+        # what the tests on the coefficient leave over is looked at: a last `else`, or a further branch of the chain that asks something else
+        # (`elif lower_bound > 0:` - the constraint without variable decided by its constant; if it holds there is nothing to do)
+        def about_coeff(t):
+            c_ = compare_parts(t)
+            return bool(c_) and isinstance(c_[1], ast.Name) and 'coeff' in c_[1].id
+        rest_considered = any(not about_coeff(t) for t in tests[1:])
+        has_else = has_else or rest_considered
+        res.add('prover/simplex.py :: Simplex.add_ineq :: coefficient-cases#%d' % (i + 1), has_else,
+                'cases `%s` and a last branch for the rest' % '`, `'.join(src(t, 30) for t in tests) if has_else else
+                'line %d: the cases `%s` have no last branch: a constraint whose coefficient takes none of them (0 * x >= 5) is dropped, and an infeasible '
+                'system is answered satisfiable' % (n.lineno, '`, `'.join(src(t, 30) for t in tests)), 'prover/simplex.py:%d' % n.lineno)
+    return res
+
 
 def rules(repo):
-    return [rule_o1(repo), rule_o2(repo), rule_o3(repo), rule_o4(repo), rule_o5(repo), rule_o6(repo), rule_o7(repo), rule_o8(repo), rule_o9(repo), rule_o10(repo)]
+    return [rule_o1(repo), rule_o2(repo), rule_o3(repo), rule_o4(repo), rule_o5(repo), rule_o6(repo), rule_o7(repo), rule_o8(repo), rule_o9(repo), rule_o10(repo), rule_o11(repo)]
